@@ -67,6 +67,11 @@ def extra_terms():
     for body in (T.binop("Eq", T.path("c", "score"), typed.F("score")), T.binop("Gt", typed.F("score"), T.path("c", "score")),
                  T.binop("NotEq", T.path("c", "text"), typed.F("title")), T.binop("And", T.path("c", "flag"), T.binop("Eq", typed.F("title"), T.Str("t1")))):
         out += [("lambda-outer", T.lam(T.I("comments"), "Any", "c", body)), ("lambda-outer", T.lam(T.I("comments"), "All", "c", body))]
+    # navigation through a plain (scalar) column: not a relationship, so there is nothing to navigate to
+    title_f = typed.F("title")
+    out += [("plain-column-navigation", T.binop("Eq", T.A(title_f, "nope"), T.Int(1))), ("plain-column-navigation", T.binop("Eq", T.A(T.A(typed.F("score"), "x"), "y"), T.Int(1))),
+            ("plain-column-navigation", T.lam(title_f, "Any", "t", T.binop("Eq", T.I("t"), T.Str("a")))), ("plain-column-navigation", T.lam(title_f, "Any")),
+            ("plain-column-navigation", T.lam(T.path("blog", "title"), "All", "t", T.binop("Eq", T.I("t"), T.Str("a"))))]
     for l in lams:
         out += [("lambda", l), ("lambda", T.unop("Not", l)), ("lambda", T.binop("And", l, T.binop("Gt", typed.F("score"), T.Int(0)))),
                 ("lambda", T.binop("Or", T.binop("Eq", typed.F("title"), T.Str("t")), l)), ("lambda", T.binop("Eq", l, T.Bool(True)))]
@@ -161,10 +166,14 @@ def uniq_literals(term):
 def classify_exc(e, backend, kind):
     if isinstance(e, exceptions.ODataException):
         return "lib:" + type(e).__name__
-    if isinstance(e, NotImplementedError) and backend == "sa-core" and kind in ("path", "lambda", "lambda-outer"):
+    if isinstance(e, NotImplementedError) and backend == "sa-core" and kind in ("path", "lambda", "lambda-outer", "plain-column-navigation"):
         return "documented:NotImplementedError"
     if isinstance(e, ImportError) and backend == "django" and "GeoDjango" in str(e):
         return "documented:ImportError(requires_gis)"
+    if backend == "django" and kind == "plain-column-navigation" and type(e).__name__ == "FieldError":
+        # `title/nope`: an unknown field name. The Django visitor does not look at the model's fields; Django itself reports unknown
+        # names with FieldError when the query is built (the property's invalid-field clause is about the SQLAlchemy backends)
+        return "documented:FieldError(unknown field, reported by Django)"
     return "foreign:" + type(e).__name__
 
 
@@ -355,6 +364,13 @@ def null_list_terms():
             ("list-operand", T.binop("Or", T.binop("Eq", s, T.Str("zzz")), T.binop("Eq", L12, L12))), ("list-operand", T.unop("Not", T.binop("Eq", L12, L12))),
             ("list-operand", T.binop("Eq", n, L12)), ("list-operand", T.binop("Eq", T.call("length", L12), two)),
             ("list-operand", T.binop("Eq", T.call("tolower", T.lst(T.Str("a"))), s))]
+    big = ("Integer", "9" * 5000)
+    out += [("overflow-literal", T.binop("Eq", n, big)), ("overflow-literal", T.binop("In", n, T.lst(one, big))),
+            ("overflow-literal", T.binop("Gt", typed.F("d"), T.binop("Add", typed.F("d"), ("Duration", "P1000000000D")))),
+            ("overflow-literal", T.binop("Lt", typed.F("d"), T.binop("Sub", T.call("now"), ("Duration", "P2737908Y")))),
+            ("overflow-literal", T.binop("Eq", n, ("Integer", "9223372036854775808")))]
+    out += [("named-builtin", T.binop("Eq", T.call("substring", T.named("fullstr", T.Str("zzz")), T.named("fullstr", s), T.named("index", T.Int(0))), s)),
+            ("named-builtin", T.binop("Eq", T.call("length", T.named("arg", L12)), two)), ("named-builtin", T.call("contains", T.named("field", s), T.named("field", T.Str("x"))))]
     out += [("named-builtin", T.binop("Eq", T.call("length", T.named("x", s)), one)), ("named-builtin", T.call("contains", T.named("a", s), T.named("b", T.Str("x")))),
             ("named-builtin", T.binop("Eq", T.call("round", T.named("self", x)), one)), ("named-builtin", T.binop("Eq", T.call("length", T.named("arg", s)), one))]
     return out
